@@ -62,6 +62,7 @@ C05_STREAMS = [
     b'{"jsonrpc":"2.0","id":5,"result":{}}\n{"jsonrpc":"2.0","id":6,"res',
     b'{"k":"v"} \n {"k2":"v2"}\n',
     b'{"t":"a\xe2\x80\xa8b\xc2\x85c\xe2\x80\xa9"}\n{"u":1}\n',          # U+2028 / U+0085 / U+2029 raw inside a JSON string
+    b'{"a":1}\n\xc3\xa9x\n{"c":3}\n',                                  # a junk line starting with a multi-byte character
 ]
 
 
@@ -86,7 +87,7 @@ def search_c05(tier="quick"):
     for stream in C05_STREAMS:
         want = _oracle_docs(stream)
         positions = range(1, len(stream))
-        for k in range(0, cuts_max + 1):
+        for k in range(0, (cuts_max + 1 if len(stream) <= 28 else cuts_max) + 1):
             combos = itertools.combinations(positions, k)
             if k == cuts_max and len(stream) > 40 and tier != "thorough":
                 combos = itertools.combinations(range(1, len(stream), 3), k)
@@ -103,7 +104,7 @@ def search_c05(tier="quick"):
                     return dict(reproduced=True, input=dict(chunks=[repr(c) for c in chunks]), observed=f"documents {got}",
                                 required=f"documents {want} (a function of the concatenated bytes alone)", cases=n)
     return dict(reproduced=False, cases=n,
-                bound=f"{len(C05_STREAMS)} byte streams x every chunking with <= {cuts_max} cut points (bounded, not a proof)")
+                bound=f"{len(C05_STREAMS)} byte streams x every chunking with <= {cuts_max} cut points ({cuts_max + 1} for streams of <= 28 bytes) (bounded, not a proof)")
 
 
 # ------------------------------------------------------------------------------------------------ C06: writer
@@ -136,28 +137,40 @@ class _Unserialisable:
 
 
 def _c06_messages():
+    """(label, message object, expected wire value or None when it is computed from the message itself): the expected
+    value of a typed message is written down here, independently of the library's own dump"""
     jm = importlib.import_module("chuk_mcp.protocol.messages.json_rpc_message")
+    nested = {"name": "t", "arguments": {"assignee": None, "deep": {"n": None, "l": [None, 1]}}}
     return [
-        ("typed request", jm.create_request("tools/call", {"name": "t", "arguments": {"s": "a\nb\r c"}}, id=7)),
-        ("typed notification", jm.create_notification("notifications/initialized", None)),
-        ("typed response", jm.create_response(0, {"text": "café \U0001f600"})),
-        ("typed error", jm.create_error_response("x", -32601, "nope")),
-        ("plain dict", {"jsonrpc": "2.0", "id": 3, "method": "ping", "params": {"nl": "line1\nline2", "nul": "\u0000"}}),
-        ("plain dict big int", {"jsonrpc": "2.0", "id": 2 ** 64 - 1, "method": "ping"}),
-        ("dump-only object", _DumpOnly({"jsonrpc": "2.0", "id": 9, "method": "m", "params": None})),
-        ("raw string", '{"jsonrpc":"2.0","id":4,"method":"ping"}'),
-        ("raw pretty string", '{\n  "jsonrpc": "2.0",\r\n  "id": 5,\n  "method": "ping"\n}'),
+        ("typed request", jm.create_request("tools/call", {"name": "t", "arguments": {"s": "a\nb\r c"}}, id=7),
+         {"jsonrpc": "2.0", "id": 7, "method": "tools/call", "params": {"name": "t", "arguments": {"s": "a\nb\r c"}}}),
+        ("typed notification", jm.create_notification("notifications/initialized", None), "any-notification"),
+        ("typed request with explicit nested nulls", jm.create_request("tools/call", nested, id="n-1"),
+         {"jsonrpc": "2.0", "id": "n-1", "method": "tools/call", "params": nested}),
+        ("typed response with explicit nested nulls", jm.create_response(8, {"value": None, "o": {"n": None}}),
+         {"jsonrpc": "2.0", "id": 8, "result": {"value": None, "o": {"n": None}}}),
+        ("typed response", jm.create_response(0, {"text": "caf\u00e9 \U0001f600"}),
+         {"jsonrpc": "2.0", "id": 0, "result": {"text": "caf\u00e9 \U0001f600"}}),
+        ("typed error", jm.create_error_response("x", -32601, "nope"),
+         {"jsonrpc": "2.0", "id": "x", "error": {"code": -32601, "message": "nope"}}),
+        ("plain dict", {"jsonrpc": "2.0", "id": 3, "method": "ping", "params": {"nl": "line1\nline2", "nul": "\u0000"}}, None),
+        ("plain dict big int", {"jsonrpc": "2.0", "id": 2 ** 64 - 1, "method": "ping"}, None),
+        ("dump-only object", _DumpOnly({"jsonrpc": "2.0", "id": 9, "method": "m", "params": None}), None),
+        ("raw string", '{"jsonrpc":"2.0","id":4,"method":"ping"}', None),
+        ("raw pretty string", '{\n  "jsonrpc": "2.0",\r\n  "id": 5,\n  "method": "ping"\n}', None),
         ("raw string with unicode line separators inside a JSON string",
-         '{"jsonrpc":"2.0","id":8,"method":"m","params":{"t":"a\u2028b\u0085c\u2029d"}}'),
-        ("typed message relying on class defaults", jm.JSONRPCMessage(id=11, method="ping")),
-        ("typed response built directly", jm.JSONRPCMessage(id=12, result={"ok": True})),
-        ("unserialisable", _Unserialisable()),
-        ("dict with unserialisable value", {"jsonrpc": "2.0", "id": 6, "method": "m", "params": {"x": _Unserialisable()}}),
+         '{"jsonrpc":"2.0","id":8,"method":"m","params":{"t":"a\u2028b\u0085c\u2029d"}}', None),
+        ("typed message relying on class defaults", jm.JSONRPCMessage(id=11, method="ping"), {"jsonrpc": "2.0", "id": 11, "method": "ping"}),
+        ("typed response built directly", jm.JSONRPCMessage(id=12, result={"ok": True}), {"jsonrpc": "2.0", "id": 12, "result": {"ok": True}}),
+        ("unserialisable", _Unserialisable(), None),
+        ("dict with unserialisable value", {"jsonrpc": "2.0", "id": 6, "method": "m", "params": {"x": _Unserialisable()}}, None),
     ]
 
 
-def _c06_expected(label, m):
+def _c06_expected(label, m, given=None):
     """the JSON value the single line must decode to, or None when nothing may be written for this message"""
+    if given is not None:
+        return given
     if isinstance(m, str):
         try:
             return json.loads(m)
@@ -198,25 +211,32 @@ def run_writer(messages):
 def search_c06(tier="quick"):
     msgs = _c06_messages()
     n = 0
-    orders = [list(range(len(msgs)))] + [[i] for i in range(len(msgs))] + [[9, i] for i in range(len(msgs))]
+    bad = next(i for i, t in enumerate(msgs) if t[0] == "unserialisable")
+    orders = [list(range(len(msgs)))] + [[i] for i in range(len(msgs))] + [[bad, i] for i in range(len(msgs))]
     if tier == "thorough":
         orders += [list(p) for p in itertools.permutations(range(len(msgs)), 2)]
     for order in orders:
         batch = [msgs[i] for i in order]
         n += 1
         try:
-            stdin = run_writer([m for _l, m in batch])
+            stdin = run_writer([m for _l, m, _e in batch])
         except BaseException as ex:     # noqa: BLE001
-            return dict(reproduced=True, input=[l for l, _m in batch], observed=f"{type(ex).__name__}: {ex}",
+            return dict(reproduced=True, input=[l for l, _m, _e in batch], observed=f"{type(ex).__name__}: {ex}",
                         required="the writer survives every message")
-        expected = [(l, _c06_expected(l, m)) for l, m in batch]
+        expected = [(l, _c06_expected(l, m, e)) for l, m, e in batch]
         expected = [(l, e) for l, e in expected if e is not None]
         if len(stdin.writes) != len(expected):
-            return dict(reproduced=True, input=[l for l, _m in batch], observed=f"{len(stdin.writes)} writes: {stdin.writes!r}"[:600],
+            return dict(reproduced=True, input=[l for l, _m, _e in batch], observed=f"{len(stdin.writes)} writes: {stdin.writes!r}"[:600],
                         required=f"exactly one line for each of {[l for l, _e in expected]}")
         for w, (l, e) in zip(stdin.writes, expected):
             ok = isinstance(w, bytes) and w.endswith(b"\n") and b"\n" not in w[:-1] and b"\r" not in w[:-1]
-            if ok and e != "raw":
+            if ok and e == "any-notification":
+                try:
+                    d = json.loads(w.decode("utf-8"))
+                    ok = d.get("jsonrpc") == "2.0" and d.get("method") == "notifications/initialized" and "id" not in d
+                except ValueError:
+                    ok = False
+            elif ok and e != "raw":
                 try:
                     ok = json.loads(w.decode("utf-8")) == e
                 except ValueError:
@@ -225,7 +245,7 @@ def search_c06(tier="quick"):
                 return dict(reproduced=True, input=l, observed=repr(w)[:400],
                             required=f"one utf-8 line + '\\n' without a raw line break that decodes to {e!r}"[:400])
         if not stdin.closed:
-            return dict(reproduced=True, input=[l for l, _m in batch], observed="stdin left open",
+            return dict(reproduced=True, input=[l for l, _m, _e in batch], observed="stdin left open",
                         required="stdin closed when the write stream ends")
     return dict(reproduced=False, cases=n, bound=f"{len(msgs)} message shapes, {n} sequences of them (bounded, not a proof)")
 
@@ -414,6 +434,10 @@ def search_c13_transport(tier="quick"):
             if any(str(getattr(m, "id", None)) != i for m in msgs):
                 return dict(reproduced=True, input=dict(pending=pending_ids, incoming_response_id=incoming_id),
                             observed=f"request stream {i!r} received {[_wire(m) for m in msgs]}", required="only a message bearing its own id")
+        if str(incoming_id) in pending_ids and len(per[str(incoming_id)]) != 1:
+            return dict(reproduced=True, input=dict(registered_in_order=pending_ids, incoming_response_id=incoming_id),
+                        observed=f"the stream registered under {incoming_id!r} received {len(per[str(incoming_id)])} message(s)",
+                        required="a waiter registered under the response's id receives it (no lost responses)")
         if len(main) != 1:
             return dict(reproduced=True, input=dict(pending=pending_ids, incoming_response_id=incoming_id),
                         observed=f"read stream got {len(main)} message(s)", required="offered to the shared read stream exactly once")
